@@ -8,7 +8,9 @@
 EXTENDS Naturals, Sequences, FiniteSets
 
 CheckerClasses == {"exA", "exB", "exC", "predY", "predN"}
-HandlerKinds   == {"plain", "decline", "first", "last", "deleg"}
+\* "abort": the handler raises a TERMINAL CannotProvide (CannotProvide(is_terminal=True)): the request bus re-raises it instead of
+\* going on, through every delegating provider above - the whole request fails at once
+HandlerKinds   == {"plain", "decline", "first", "last", "deleg", "abort"}
 Providers      == [c : CheckerClasses, h : HandlerKinds]
 Builtin        == [c |-> "predY", h |-> "plain"]
 
@@ -27,15 +29,18 @@ Compose(h, i, t) == CASE h = "first" -> <<i>> \o t         \* the function runs 
 \* matches it ("exC" is the exact origin None, which such a request must not be confused with)
 RECURSIVE RefG(_, _, _)
 RefG(r, from, mc) ==
-  IF from > Len(r) THEN [ok |-> FALSE, term |-> <<>>, log |-> <<>>]
+  IF from > Len(r) THEN [ok |-> FALSE, term |-> <<>>, log |-> <<>>, ab |-> FALSE]
   ELSE LET p == r[from] IN
        IF p.c \notin mc THEN RefG(r, from + 1, mc)
-       ELSE IF p.h = "plain" THEN [ok |-> TRUE, term |-> <<from>>, log |-> <<from>>]
+       ELSE IF p.h = "plain" THEN [ok |-> TRUE, term |-> <<from>>, log |-> <<from>>, ab |-> FALSE]
+       ELSE IF p.h = "abort" THEN [ok |-> FALSE, term |-> <<>>, log |-> <<from>>, ab |-> TRUE]
        ELSE LET n == RefG(r, from + 1, mc) IN
             IF p.h = "decline" THEN [n EXCEPT !.log = <<from>> \o @]
-            ELSE IF n.ok THEN [ok |-> TRUE, term |-> Compose(p.h, from, n.term), log |-> <<from>> \o n.log]
+            ELSE IF n.ok THEN [ok |-> TRUE, term |-> Compose(p.h, from, n.term), log |-> <<from>> \o n.log, ab |-> FALSE]
+                 \* nested search aborted: the terminal exception passes through the delegating handler
+                 ELSE IF n.ab THEN [ok |-> FALSE, term |-> <<>>, log |-> <<from>> \o n.log, ab |-> TRUE]
                  \* nested search failed: the provider declines and the outer search goes on (and fails the same way)
-                 ELSE [ok |-> FALSE, term |-> <<>>, log |-> (<<from>> \o n.log) \o n.log]
+                 ELSE [ok |-> FALSE, term |-> <<>>, log |-> (<<from>> \o n.log) \o n.log, ab |-> FALSE]
 Ref(r, from) == RefG(r, from, {"exA", "predY"})
 
 =======================================================================================
